@@ -91,6 +91,54 @@ def big_writer(pair, res, sizes, r):
     return spec
 
 
+def word_clears(pair, res, r, rounds):
+    """clears whose range spans several 32-block words of one page, over words that are partly or wholly cleared
+    already (so that only the MIDDLE of the range changes anything), with the flush cadence and reopens in between:
+    has() on every index and the contiguous length after every step"""
+    p = pair
+    for rd in range(rounds):
+        p.reset(); p.raw("disk D"); p.do("new W D writer")
+        spec = ListSpec()
+        n = r.choice([130, 200, 333, 520])
+        steps = [("append", n)]
+        for _ in range(r.choice([2, 3, 4])):
+            w0 = r.randrange(0, n // 32 - 2)
+            w1 = r.randrange(w0 + 2, n // 32 + 1)
+            # empty the edge words first (whole words, or the part inside the later range), then the wide range
+            lo = w0 * 32 + r.choice([0, 0, 5]); hi = min(n, w1 * 32 + r.choice([32, 32, 20]))
+            pre = [("clear", lo, (w0 + 1) * 32), ("clear", w1 * 32, hi)]
+            r.shuffle(pre)
+            steps += pre
+            if r.random() < 0.5:
+                steps.append(("reopen",))
+            steps.append(("clear", lo, hi))
+            for _ in range(r.choice([0, 1, 3, 4])):
+                steps.append(("clear", n - 1, n))     # further mutating calls: the flush cadence moves on
+            steps.append(("reopen",))
+        for k, st in enumerate(steps):
+            label = "word clears round %d step %d %s of %s" % (rd, k, st, steps)
+            if st[0] == "append":
+                blocks = [bytes([r.randrange(256)])] * st[1]
+                spec.blocks.extend(blocks)
+                ia, _ = p.do("append W " + " ".join(hexb(b) for b in blocks))
+            elif st[0] == "clear":
+                if st[1] >= spec.length or st[1] >= st[2]:
+                    continue
+                for i in range(st[1], min(st[2], spec.length)):
+                    spec.cleared.add(i)
+                ia, _ = p.do("clear W %d %d" % (st[1], st[2]))
+                if ia != "ok":
+                    raise Violation("clear:result", label + " answered " + ia[:80], label)
+            else:
+                p.raw("drop W")
+                ia, _ = p.do("open W D")
+                if ia != "ok":
+                    raise Violation("reopen:result", label + " answered " + ia[:80], label)
+            has_sweep(p, "W", spec.held, spec.length, res, label)
+            contig_check(p, "W", spec.held, spec.length, label)
+            res.count("word-clear-steps")
+
+
 def sparse_replica(pair, res, n, r):
     w = World(pair)
     w.w_append([bytes([i % 251]) for i in range(n)])
@@ -196,6 +244,7 @@ def main(tier, seed):
         cases = [("big-writer", lambda: big_writer(pair, res, [9000, 25000] if tier == "quick" else [9000, 25000, 33000], r)),
                  ("sparse-replica", lambda: sparse_replica(pair, res, 34000 if tier == "quick" else 70000, r)),
                  ("full-page-writer", lambda: full_page_writer(pair, res, r)),
+                 ("word-clears", lambda: word_clears(pair, res, r, 4 if tier == "quick" else 60)),
                  ("high-only-replica", lambda: high_only_replica(pair, res, 34000, r))]
         for name, f in cases:
             try:
